@@ -214,12 +214,15 @@ def rule_r2(ctx) -> List[R.Inst]:
 def rule_r3(ctx) -> List[R.Inst]:
     M = ctx.M
     rid = "C20.R3"
-    fn = M.fn(COMBO + ".combinations")
+    fn = M.nfn(COMBO + ".combinations")
     file = M.mods[fn.mod].rel
     insts = []
     size = params_of(fn.node)[1]
     zl = [n for n in walk_no_nested(fn.node) if isinstance(n, ast.For) and isinstance(n.iter, ast.Call) and call_name(n.iter) == "zip"]
-    chunk = local_defs(fn.node, "chunk")
+    # the chunk: the local sliced out of self.groups (whatever its name)
+    cdefs = [n for n in walk_no_nested(fn.node) if isinstance(n, ast.Assign) and isinstance(n.targets[0], ast.Name) and
+             isinstance(n.value, ast.Subscript) and isinstance(n.value.slice, ast.Slice) and unparse(n.value.value) == "self.groups"]
+    chunk = [n.value for n in cdefs] or local_defs(fn.node, "chunk")
     decided = False
     if len(zl) == 1 and len(zl[0].iter.args) == 2 and all(isinstance(a, ast.Call) and call_name(a) == "range" for a in zl[0].iter.args):
         r0, r1 = zl[0].iter.args
@@ -255,7 +258,13 @@ def rule_r3(ctx) -> List[R.Inst]:
     mg = [n for n in walk_no_nested(fn.node) if isinstance(n, ast.Call) and call_name(n) == "meshgrid"]
     rs = [n for n in walk_no_nested(fn.node) if isinstance(n, ast.Call) and call_name(n) == "reshape" and len(n.args) == 2
           and any(isinstance(x, ast.Call) and call_name(x) == "meshgrid" for x in ast.walk(n.func.value))]
-    if len(mg) == 1 and mg[0].args and isinstance(mg[0].args[0], ast.Starred) and unparse(mg[0].args[0].value) == "chunk" and \
+    # ... over one chunk: the loop variable over the collected chunks, or the chunk itself
+    chunk_names = {"chunk"} | {n.targets[0].id for n in cdefs}
+    coll = {c.func.value.id for n in walk_no_nested(fn.node) for c in [n] if isinstance(c, ast.Call) and call_name(c) == "append" and
+            isinstance(c.func.value, ast.Name) and c.args and isinstance(c.args[0], ast.Name) and c.args[0].id in chunk_names}
+    chunk_names |= {f.target.id for f in walk_no_nested(fn.node) if isinstance(f, ast.For) and isinstance(f.target, ast.Name) and
+                    isinstance(f.iter, ast.Name) and f.iter.id in coll}
+    if len(mg) == 1 and mg[0].args and isinstance(mg[0].args[0], ast.Starred) and unparse(mg[0].args[0].value) in chunk_names and \
             rs and unparse(rs[0].args[0]) == "-1" and unparse(rs[0].args[1]) == size:
         insts.append(R.ok(rid, "cartesian-product", file, mg[0].lineno, idiom="meshgrid(*chunk) reshaped to rows of length size"))
     else:
